@@ -142,6 +142,10 @@ def _into_iter(I, a, d):
         return RIter.from_list(items)
     if hasattr(v, "into_iter"):
         return v.into_iter(I)
+    if isinstance(v, Agg) and v.kind == "array":
+        return RIter.from_list(list(v.fields))
+    if isinstance(v, SliceRef):
+        return RIter.from_list([Ref(ElemLoc(v.items, i)) for i in range(v.start, v.end)])
     if isinstance(v, Ref):
         # iterating a borrowed collection yields references to its elements
         t = peel(v)
@@ -154,6 +158,10 @@ def _into_iter(I, a, d):
             return RIter.from_list([Ref(ValLoc(x)) for x in items])
         if hasattr(t, "iter_refs"):
             return t.iter_refs(I, v.mut)
+        if isinstance(t, Agg) and t.kind == "array":
+            return RIter.from_list([Ref(ElemLoc(t.fields, i), v.mut) for i in range(len(t.fields))])
+        if isinstance(t, SliceRef):
+            return RIter.from_list([Ref(ElemLoc(t.items, i), v.mut) for i in range(t.start, t.end)])
         if isinstance(t, RIter):
             return t
     raise Inconclusive("into_iter on %r" % (v,))
@@ -1483,6 +1491,12 @@ def _slice_iter(I, a, d):
         return RIter.from_list([Ref(ElemLoc(v.items, v.start + i)) for i in range(len(v))])
     if isinstance(v, VecObj):
         return RIter.from_list([Ref(ElemLoc(v.items, i)) for i in range(len(v.items))])
+    if isinstance(v, Agg) and v.kind == "array":
+        return RIter.from_list([Ref(ElemLoc(v.fields, i)) for i in range(len(v.fields))])
+    if isinstance(v, (BufObj, BytesRef)):
+        ln = v.sb.length()
+        if not is_sym(ln) and v.sb.is_concrete():
+            return RIter.from_list(list(v.sb.concrete()))
     raise Inconclusive("slice::iter on %r" % (v,))
 
 
@@ -2847,6 +2861,10 @@ def _extend(I, a, d):
     items = it.to_list(I)
     if isinstance(v, VecObj):
         v.items.extend(items)
+        return UNIT
+    if isinstance(v, BufObj) and v.kind == "PathBuf":
+        for x in items:
+            v.sb = path_join(v.sb, as_sbytes(x))      # PathBuf::extend pushes every segment
         return UNIT
     if isinstance(v, BufObj):
         for x in items:
